@@ -3,7 +3,9 @@
    [eligible n e] = entry e is still in its matching heap and belongs to the pool a client of NAT
    type n is served from; L_Client n fp o choice is the client's matchSnowflake step. *)
 From Coq Require Import List NArith ZArith Bool.
+From Coq Require Import Permutation.
 From Snow Require Import Model.Broker Proofs.BrokerProofs Proofs.BrokerSteps Proofs.BrokerThms.
+From Snow Require Import Model.GoHeap Proofs.GoHeapProofs Proofs.BrokerHeapProofs.
 Import ListNotations.
 Open Scope N_scope.
 
@@ -45,6 +47,26 @@ Theorem C03_least_loaded : forall v s n fp o p s',
     exists c, nth_error (entries s') p = Some (set_cl (Some c) (set_heap_live false (e_live e) e)) /\
               c_nat c = n /\ c_fp c = fp /\ c_offer c = o /\ c_pc c = C_Send.
 Proof. exact least_loaded. Qed.
+
+(* The relational pool above is what the real data structure delivers: the broker's SnowflakeHeap is Go's
+   container/heap (Model/GoHeap.v, validated against the standard library by the C17 correspondence) over a
+   slice ordered by client count. After ANY sequence of pushes (AddSnowflake), guarded pops (matchSnowflake)
+   and guarded removals (proxy timeout) the slice is heap ordered, heap.Pop returns an element whose client
+   count is minimal, and the contents change only by that element. *)
+Theorem C03_array_heap_invariant : forall ops, heap_ok sf sf_less (fold_left hstep ops []).
+Proof. exact heap_ops_ok. Qed.
+
+Theorem C03_array_heap_pops_least_loaded : forall ops m,
+  let l := fold_left hstep ops [] in
+  nth_error l 0 = Some m ->
+  exists l', lpop sf_less l = (l', Some m) /\ heap_ok sf sf_less l' /\ Permutation l (m :: l') /\
+             (forall y, In y l -> snd m <= snd y).
+Proof. exact pop_least_loaded. Qed.
+
+Example C03_array_heap_example :
+  lpop sf_less (fold_left hstep [HPush (0%nat, 15); HPush (1%nat, 9); HPush (2%nat, 23); HRemove 2] []) =
+  ([(0%nat, 15)], Some (1%nat, 9)).
+Proof. vm_compute. reflexivity. Qed.
 
 (* non-vacuity: with loads 5 and 2 waiting, the client is given the proxy with load 2 and cannot be given the other *)
 Example C03_example :
